@@ -1,8 +1,8 @@
 package worlds
 
 import (
-	"math"
 	"fmt"
+	"math"
 
 	"github.com/bradenaw/juniper/parallel"
 
@@ -19,13 +19,13 @@ func init() {
 }
 
 type pardoCall struct {
-	idx              int
-	startSeq, endSeq uint64
-	startAt, endAt   int64
-	ctxDeadAtEntry   bool
+	idx               int
+	startSeq, endSeq  uint64
+	startAt, endAt    int64
+	ctxDeadAtEntry    bool
 	callerLiveAtEntry bool
-	err              error
-	sawDone          bool
+	err               error
+	sawDone           bool
 }
 
 // pardoHugeN: DoContext over an index range nobody could ever work through - n at or near the top
@@ -153,7 +153,7 @@ func pardoWorld(r *R) {
 	}
 	callerKind := 0
 	if withCtx {
-		callerKind = []int{0, 0, 0, 1, 2, 3, 4}[r.Choose(7, "callerctx")]
+		callerKind = []int{0, 0, 0, 1, 2, 3, 4, 5, 6}[r.Choose(9, "callerctx")]
 	}
 	root := NewCtx(nil, "root")
 	// Earlier calls in the same process: the call under test is not the first use of the package.
@@ -208,6 +208,15 @@ func pardoWorld(r *R) {
 		// a caller with nothing to cancel: context.Background(), or a value on top of it
 		caller = BackgroundCtx("caller", callerKind == 4)
 		r.Probe("caller-context-without-done-channel")
+	case 5:
+		// a caller whose context ends by its deadline while the call is under way: "the caller's
+		// context error" is then context.DeadlineExceeded, not context.Canceled
+		caller = NewDeadlineCtx(root, "caller", []time.Duration{5 * time.Millisecond, 30 * time.Millisecond, 100 * time.Millisecond, 3 * time.Second}[r.Choose(4, "caller-deadline")])
+		r.Probe("caller-context-with-deadline")
+	case 6:
+		caller = PastDeadline(root, "caller")
+		r.Probe("caller-context-with-deadline")
+		r.Fault("ctx_precancelled")
 	}
 	if callerKind != 0 && r.Choose(6, "caller-uncomparable") == 5 {
 		caller.Uncomparable()
@@ -221,7 +230,7 @@ func pardoWorld(r *R) {
 	returned := false
 	var retSeq uint64
 	var failReturned []*pardoCall // calls that have returned an error, in order
-	began := 0                     // calls that began with an already-cancelled ctx while the caller's ctx was live
+	began := 0                    // calls that began with an already-cancelled ctx while the caller's ctx was live
 
 	body := func(ctx context.Context, i int) error {
 		c := &pardoCall{idx: i, startSeq: sim.Seq(), startAt: int64(sim.Now())}
